@@ -278,7 +278,7 @@ func replayTxFile(r *core.Run, cfg string, walLimit uint, judgeEvery int) []*cor
 	}
 	gen.Cleanup()
 	max := maximalPaths(paths)
-	r.Extra["txreplay_"+cfg] = map[string]interface{}{"graph_states": gen.Distinct, "transitions": len(paths), "maximal_paths_replayed": len(max), "judged_by_TxTrace_every": judgeEvery}
+	r.SetExtra("txreplay_"+cfg, map[string]interface{}{"graph_states": gen.Distinct, "transitions": len(paths), "maximal_paths_replayed": len(max), "judged_by_TxTrace_every": judgeEvery})
 	if len(max) > 0 {
 		r.AddSample(map[string]interface{}{"replayed_txfile_path": max[len(max)/2]})
 	}
